@@ -3,6 +3,7 @@ package main
 import (
 	"fmt"
 	"go/token"
+	"strings"
 
 	"golang.org/x/tools/go/ssa"
 )
@@ -29,32 +30,7 @@ func runC17(c *Ctx) {
 	r := hb.Params[0]
 	isReq := vOrigins(oIsValue(r))
 	// fast paths
-	clPositive := func(cond ssa.Value, branch bool) bool {
-		cnd, b := stripNot(cond, branch)
-		bo, ok := cnd.(*ssa.BinOp)
-		if !ok {
-			return false
-		}
-		isCL := vFieldLoad("net/http.Request", "ContentLength", isReq)
-		k, isK := constInt(bo.Y)
-		if isCL(bo.X) && isK {
-			switch {
-			case bo.Op == token.GTR && k == 0, bo.Op == token.GEQ && k == 1:
-				return b
-			case bo.Op == token.LEQ && k == 0, bo.Op == token.LSS && k == 1:
-				return !b
-			}
-		}
-		if k2, isK2 := constInt(bo.X); isK2 && isCL(bo.Y) {
-			switch {
-			case bo.Op == token.LSS && k2 == 0, bo.Op == token.LEQ && k2 == 1:
-				return b
-			case bo.Op == token.GEQ && k2 == 0, bo.Op == token.GTR && k2 == 1:
-				return !b
-			}
-		}
-		return false
-	}
+	clPositive := factContentLengthPositive(isReq)
 	isCLHeader := func(v ssa.Value) bool {
 		call := asCall(v)
 		if call == nil || calleeName(&call.Call) != "(net/http.Header).Get" {
@@ -64,7 +40,7 @@ func runC17(c *Ctx) {
 		s, ok := constString(args[0])
 		return ok && s == "Content-Length" && vFieldLoad("net/http.Request", "Header", isReq)(recv)
 	}
-	headerPresent := factEqString(isCLHeader, "", false)
+	headerPresent := factContentLengthDeclared(isReq, isCLHeader)
 	probes := callsIn(hb, "(*rt.peekingReader).HasContent")
 	wraps := callsIn(hb, "rt.newPeekingReader")
 	c.obRF("R17.1", hb, "probes-through-wrapper", len(probes) == 1 && len(wraps) == 1, "HasBody wraps the body once and probes the wrapper", fmt.Sprintf("%d HasContent, %d newPeekingReader", len(probes), len(wraps)))
@@ -151,6 +127,23 @@ func runC17(c *Ctx) {
 		}
 	}
 	_ = recvP
+	// reading never closes: the original stream is released by closing the body, once (a Read that closes at EOF makes
+	// the next Read fail instead of repeating EOF, and the caller's own Close report "already closed")
+	for _, ci := range allCalls(rd) {
+		cc := ci.Common()
+		isClose := cc.IsInvoke() && cc.Method.Name() == "Close" || strings.HasSuffix(calleeName(cc), ").Close")
+		if isClose {
+			c.obD("R17.2", ci, "read-never-closes", false, "peekingReader.Read closes nothing", "Read calls "+calleeName(cc))
+		}
+	}
+	// … and no Read succeeds in the closed state by another route: a return with a nil error lies behind the
+	// closed-state test too (a shortcut for empty buffers placed before the test makes a read after close succeed)
+	for _, ret := range returnsOf(rd) {
+		if len(ret.Results) != 2 || !isNilConst(ret.Results[1]) {
+			continue
+		}
+		c.obI("R17.2", ret, "no-successful-read-when-closed", guardedBy(ret, nil, factNil(isUnderlying(rd), false)), "Read returns a nil error only when the reader is open (underlying != nil): whatever the buffer's size, a read after Close fails", "a return with a nil error is reachable in the closed state")
+	}
 	c.obRF("R17.1", rd, "read-delegates", nDeleg == 1, "Read has exactly one delegate call", fmt.Sprintf("%d interface calls", nDeleg))
 	// no access to orig in Read / HasContent
 	hc := p.Fn("(*rt.peekingReader).HasContent")
@@ -252,8 +245,15 @@ func runC17(c *Ctx) {
 	var closes []ssa.CallInstruction
 	for _, ci := range allCalls(cl) {
 		cc := ci.Common()
-		if cc.IsInvoke() && cc.Method.Name() == "Close" && isOrig(cc.Value) {
-			closes = append(closes, ci)
+		if cc.IsInvoke() && cc.Method.Name() == "Close" {
+			okO := isOrig(cc.Value)
+			if !okO {
+				// closed through a helper that is handed the original stream (closeIfPresent(p.orig))
+				okO, _ = allOrigins(cc.Value, oFieldLoad(peekT, "orig", vOrigins(oIsValue(cl.Params[0]))))
+			}
+			if okO {
+				closes = append(closes, ci)
+			}
 		}
 	}
 	c.obRF("R17.2", cl, "closes-original", len(closes) == 1, "Close closes the original stream", fmt.Sprintf("%d calls of orig.Close", len(closes)))
@@ -284,6 +284,18 @@ func runC17(c *Ctx) {
 		for _, ret := range returnsOf(cl) {
 			if pathExists(cl, k, ret, nil, nil) {
 				ok, _ := allOriginsAfter(cl, k, resOf(ret, 0), oIsValue(k.Value()))
+				if hc := asCall(resOf(ret, 0)); !ok && hc != nil && transparentCallee(hc) == k.Parent() {
+					// the close happens in a helper whose result is returned: judged on the helper's returns that follow it
+					ok = true
+					for _, r2 := range returnsOf(k.Parent()) {
+						if !pathExists(k.Parent(), k, r2, nil, nil) {
+							continue
+						}
+						if ok2, _ := allOriginsAfter(k.Parent(), k, resOf(r2, 0), oIsValue(k.Value())); !ok2 {
+							ok = false
+						}
+					}
+				}
 				c.obI("R17.2", ret, "returns-close-error", ok, "Close returns the original stream's Close error", "")
 			}
 		}
@@ -324,4 +336,64 @@ func runC17(c *Ctx) {
 
 func negate(p EdgePred) EdgePred {
 	return func(cond ssa.Value, branch bool) bool { return p(cond, !branch) }
+}
+
+// factContentLengthPositive: the edge establishes r.ContentLength > 0 for the request recognised by isReq.
+func factContentLengthPositive(isReq VPred) EdgePred {
+	return func(cond ssa.Value, branch bool) bool {
+		cnd, b := stripNot(cond, branch)
+		bo, ok := cnd.(*ssa.BinOp)
+		if !ok {
+			return false
+		}
+		isCL := vFieldLoad("net/http.Request", "ContentLength", isReq)
+		k, isK := constInt(bo.Y)
+		if isCL(bo.X) && isK {
+			switch {
+			case bo.Op == token.GTR && k == 0, bo.Op == token.GEQ && k == 1:
+				return b
+			case bo.Op == token.LEQ && k == 0, bo.Op == token.LSS && k == 1:
+				return !b
+			}
+		}
+		if k2, isK2 := constInt(bo.X); isK2 && isCL(bo.Y) {
+			switch {
+			case bo.Op == token.LSS && k2 == 0, bo.Op == token.LEQ && k2 == 1:
+				return b
+			case bo.Op == token.GEQ && k2 == 0, bo.Op == token.GTR && k2 == 1:
+				return !b
+			}
+		}
+		return false
+	}
+}
+
+// factContentLengthDeclared: the edge establishes that the request carries a Content-Length header: Header.Get(..) != "",
+// or len(r.Header["Content-Length"]) > 0 / len(r.Header["Content-Length"][0]) > 0 (the canonical key indexed directly).
+func factContentLengthDeclared(isReq VPred, isCLHeaderGet VPred) EdgePred {
+	isLookup := func(v ssa.Value) bool {
+		lk, ok := v.(*ssa.Lookup)
+		if !ok {
+			if ex, isEx := v.(*ssa.Extract); isEx {
+				lk, ok = ex.Tuple.(*ssa.Lookup)
+			}
+		}
+		if !ok || lk == nil {
+			return false
+		}
+		k, isK := constString(lk.Index)
+		return isK && k == "Content-Length" && vFieldLoad("net/http.Request", "Header", isReq)(lk.X)
+	}
+	isLookupOrElem := func(v ssa.Value) bool {
+		if isLookup(v) {
+			return true
+		}
+		if ad, ok := derefLoad(v); ok {
+			if ia, isIA := ad.(*ssa.IndexAddr); isIA {
+				return isLookup(ia.X)
+			}
+		}
+		return false
+	}
+	return anyFact(factEqString(isCLHeaderGet, "", false), factLenPositive(isLookupOrElem, true))
 }
